@@ -7,6 +7,7 @@ from simkit.seeds import derive
 from simkit.trace import short_hash
 
 from . import store_gen as G
+from . import store_faults  # noqa: F401  (attaches the C10 operations to StoreSim)
 from .store_sim import OracleFailure, StoreSim, make_sandbox, remove_sandbox
 
 NAME = 'store-sim'
@@ -71,6 +72,11 @@ def draw_config(rng: random.Random, prop: str) -> dict:
         cfg['layout'] = rng.choices(['single', 'assoc'], [0.8, 0.2])[0]
         w.update(add_invalid=6, merge_refused=2, merge=1, close=3, open_a=3, fsck=1.5,
                  merge_faulted=1.5, save=0)
+        if rng.random() < 0.85:
+            cfg['regime'] = 'tiny'
+        cfg['ids'] = rng.choices(['all', 'none', 'per_group'], [0.25, 0.15, 0.6])[0]
+        cfg['same_fs'] = rng.random() < 0.5
+        cfg['max_files'] = rng.randint(2, 5)
     # swarm: switch some op kinds off entirely
     for k in ('iter', 'sync', 'lookup', 'fsck', 'get_oob', 'save'):
         if rng.random() < 0.25:
@@ -93,6 +99,122 @@ class Gen:
         self.cs = 0
         self.used_ids: dict = {}  # gid -> list of ids handed out
         self.nmerged = 0
+        self.script = None
+        p_script = {'C10': 0.55, 'C09': 0.4, 'C08': 0.25}.get(cfg['prop'], 0.0)
+        if rng.random() < p_script:
+            self.script = self.merge_scenario()
+
+    # ---- scripted scenarios (ops are still validated and recorded one by one)
+    def merge_scenario(self):
+        """Build k part files (and, for some refusal kinds, one incompatible file), then
+        merge / refuse / sweep, then read the merged store."""
+        from . import store_faults as F
+
+        rng = self.rng
+        prop = self.cfg['prop']
+        for sid in list(self.sim.sessions):
+            yield {'op': 'close', 'sess': sid}
+        what = 'merge'
+        if prop == 'C10':
+            what = rng.choices(['refused', 'sweep', 'merge'], [0.5, 0.4, 0.1])[0]
+        elif prop == 'C09':
+            what = rng.choices(['refused', 'merge'], [0.2, 0.8])[0]
+        kind = rng.choice(F.REFUSAL_KINDS) if what == 'refused' else None
+        gid = self.new_group()
+        k = rng.randint(1, 3 if what == 'sweep' else 5)
+        names = []
+        for _ in range(k):
+            op = self._create_in_group(gid, force_file=True)
+            yield op
+            for _ in range(rng.randint(1, 4)):
+                sess = self.sim.sessions.get(op['sess'])
+                if sess is None:
+                    break
+                yield {'op': 'add', 'sess': op['sess'],
+                       'traj': self.traj_spec(gid, first_of_file=len(self.sim._rows(sess)) == 0,
+                                              fs=list(sess.visible_fs))}
+            yield {'op': 'close', 'sess': op['sess']}
+            names.append(op['file'])
+        extra = None
+        if kind in ('differing_fieldsets', 'mixed_identification'):
+            g = self.groups[gid]
+            g2 = self.new_group()
+            if kind == 'mixed_identification':
+                self.groups[g2].update(fs=list(g['fs']), ident=not g['ident'], n_assoc=g['n_assoc'],
+                                       layout=g['layout'], species=list(g['species']))
+            else:
+                other = [x for x in G.EXTRA_SETS if x not in g['fs']]
+                self.groups[g2].update(fs=list(g['fs']) + [rng.choice(other)], ident=g['ident'],
+                                       n_assoc=0, layout='single')
+            op = self._create_in_group(g2, force_file=True)
+            yield op
+            sess = self.sim.sessions.get(op['sess'])
+            if sess is not None:
+                yield {'op': 'add', 'sess': op['sess'],
+                       'traj': self.traj_spec(g2, first_of_file=True, fs=list(sess.visible_fs))}
+                yield {'op': 'close', 'sess': op['sess']}
+                extra = op['file']
+        order = list(names)
+        if rng.random() < 0.4:
+            rng.shuffle(order)
+        self.nmerged += 1
+        out = f'm{self.nmerged}.aeic-store'
+        mop = {'out': out, 'inputs': order}
+        if order == names and rng.random() < 0.5:
+            mop['pattern'] = {'pattern': f'g{gid}_{{index}}.nc', 'lo': 0, 'hi': len(names) - 1}
+        if what == 'refused':
+            mop.pop('pattern', None)
+            mop.update(op='merge_refused', kind=kind)
+            if extra:
+                mop.update(extra=extra, extra_pos=rng.randint(0, len(order)))
+        elif what == 'sweep':
+            mop.update(op='merge_sweep', crash_seed=rng.randint(0, 10 ** 9))
+        else:
+            mop['op'] = 'merge'
+        yield mop
+        # associated files of the parts merged separately
+        g = self.groups[gid]
+        assoc_names = []
+        if g['n_assoc'] and what != 'refused' or (what == 'refused' and g['n_assoc']):
+            for akey in range(g['n_assoc']):
+                self.nmerged += 1
+                an = f'm{self.nmerged}a{akey}.aeic-store'
+                assoc_names.append(an)
+                yield {'op': 'merge', 'out': an, 'inputs': order, 'assoc_key': akey}
+        merged_name = out if what != 'refused' or kind != 'existing_output' else 'r_' + out
+        sid = self.new_sid()
+        yield {'op': 'open_merged', 'sess': sid, 'merged': merged_name,
+               'assoc': [a for a in assoc_names if rng.random() < 0.8], 'cache': self.pick_cache()}
+        sess = self.sim.sessions.get(sid)
+        if sess is not None:
+            n = len(self.sim._rows(sess))
+            for i in rng.sample(range(n), min(n, 6)):
+                yield {'op': 'get', 'sess': sid, 'idx': i}
+            yield {'op': 'get', 'sess': sid, 'idx': n}
+            specs = self.sim._specs(sess)
+            ids = [s['fid'] for s in specs if s.get('fid') is not None]
+            for fid in rng.sample(ids, min(len(ids), 4)):
+                yield {'op': 'lookup', 'sess': sid, 'fid': fid}
+            if rng.random() < 0.5:
+                yield {'op': 'iter', 'sess': sid}
+
+    def _create_in_group(self, gid, force_file=False):
+        g = self.groups[gid]
+        sid = self.new_sid()
+        i = len(g['files'])
+        name = f'g{gid}_{i}.nc'
+        g['files'].append(name)
+        fs = list(g['fs'])
+        assoc = []
+        if g['n_assoc']:
+            moved = fs[-g['n_assoc']:]
+            for j, x in enumerate(moved):
+                assoc.append([f'g{gid}_{i}.a{j}.nc', [x]])
+            base_fs = fs[: len(fs) - g['n_assoc']]
+        else:
+            base_fs = fs
+        return {'op': 'create', 'sess': sid, 'file': name, 'group': gid, 'base_fs': base_fs,
+                'assoc': assoc, 'cache': self.pick_cache()}
 
     # ---- helpers
     def new_sid(self):
@@ -112,7 +234,11 @@ class Gen:
             fs = ['vx_wide'] + [x for x in rng.sample(pool, k) if x != 'vx_wide'][:1]
         else:
             fs = rng.sample(pool, k)
+        if self.cfg.get('same_fs') and self.groups:
+            fs = list(self.groups[0]['fs'])
         ident = {'all': True, 'none': False, 'per_group': rng.random() < 0.5}[self.cfg['ids']]
+        if self.cfg['ids'] == 'per_group' and self.cfg.get('same_fs') and self.groups:
+            ident = not self.groups[gid - 1]['ident']
         layout = self.cfg['layout']
         n_assoc = 0
         if layout == 'assoc' and fs:
@@ -205,6 +331,11 @@ class Gen:
     def next_op(self):
         rng = self.rng
         sim = self.sim
+        if self.script is not None:
+            try:
+                return next(self.script)
+            except StopIteration:
+                self.script = None
         w = self.cfg['weights']
         cands = []
         open_sessions = list(sim.sessions.values())
@@ -250,29 +381,15 @@ class Gen:
     def g_create(self):
         rng = self.rng
         # reuse a group (so that merges are possible) or start a new one
-        if self.groups and rng.random() < (0.85 if self.cfg['prop'] in ('C09', 'C10', 'C08') else 0.4):
+        if self.groups and rng.random() < {'C09': 0.85, 'C08': 0.85, 'C10': 0.6}.get(self.cfg['prop'], 0.4):
             gid = rng.choice(list(self.groups))
         else:
             gid = self.new_group()
         g = self.groups[gid]
-        sid = self.new_sid()
         if g['layout'] == 'mem' and rng.random() < 0.7:
-            return {'op': 'create', 'sess': sid, 'mem': True, 'cache': rng.choice([1, 1, 2]),
+            return {'op': 'create', 'sess': self.new_sid(), 'mem': True, 'cache': rng.choice([1, 1, 2]),
                     'group': gid, 'fs': list(g['fs'])}
-        i = len(g['files'])
-        name = f'g{gid}_{i}.nc'
-        g['files'].append(name)
-        fs = list(g['fs'])
-        assoc = []
-        if g['n_assoc']:
-            moved = fs[-g['n_assoc']:]
-            for j, x in enumerate(moved):
-                assoc.append([f'g{gid}_{i}.a{j}.nc', [x]])
-            base_fs = fs[: len(fs) - g['n_assoc']]
-        else:
-            base_fs = fs
-        return {'op': 'create', 'sess': sid, 'file': name, 'group': gid, 'base_fs': base_fs,
-                'assoc': assoc, 'cache': self.pick_cache()}
+        return self._create_in_group(gid)
 
     def _gid_of(self, sess):
         if sess.file is not None:
@@ -364,6 +481,12 @@ class Gen:
             if self.rng.random() < 0.7:
                 return None
         return {'op': 'close', 'sess': sess.sid}
+
+    def g_close_all_one(self):
+        ss = list(self.sim.sessions.values())
+        if not ss:
+            return None
+        return {'op': 'close', 'sess': self.rng.choice(ss).sid}
 
     def _closed(self):
         return [f for f in self.sim.files.values() if f.exists and f.open_by is None and not f.where]
@@ -560,7 +683,9 @@ def run(prop: str, base_seed: int, run_index: int, hashseed: int, tier: str = 'q
     violation = None
     try:
         try:
-            for _ in range(cfg['steps']):
+            n = 0
+            while (n < cfg['steps'] or gen.script is not None) and n < 150:
+                n += 1
                 op = gen.next_op()
                 if op is None:
                     continue
